@@ -53,6 +53,33 @@ def handleWire (op : String) (args : List String) : Option String :=
         | _ => ""
       some (model ++ "\t" ++ spec ++ tag)
     | _, _, _ => none
+  | "sound.pair", [e, a, b, vs] =>
+    match (Sexp.parse e).bind Env.ofSexp, (Sexp.parse a).bind Ty.ofSexp, (Sexp.parse b).bind Ty.ofSexp,
+          (Sexp.parse vs).bind valsOfSexp with
+    | some env, some t, some t2, some vals =>
+      let run (specMu specRefs : Bool) : String :=
+        " ".intercalate (vals.map fun v =>
+          match encodeArgs env [t] [v] with
+          | .ok bs => (match decodeArgs bs env [t2] specMu specRefs with
+              | .ok [v'] => v'.canon
+              | .ok _ => "err"
+              | .err _ => "err"
+              | .panic s => "panic " ++ s)
+          | .err _ => "enc-err"
+          | .panic s => "panic " ++ s)
+      let subM := match Sub.subAlg env Sub.defaultFuel [] t t2 with | .yes _ => "true" | .no => "false" | _ => "panic"
+      let subS := if Sub.gfpCheck env t t2 then "true" else "false"
+      let im := s!"sub:{subM} dec:{run false false}"
+      -- specification: the relation of the spec, the coercion of the spec; and where the relation holds no
+      -- value may fail
+      let decS := run true true
+      -- soundness is part of the specification answer: an accepted pair with a failing value is flagged
+      let unsound := subS = "true" ∧ ((decS.splitOn " ").any fun x => x = "err")
+      let sp := s!"sub:{subS} dec:{decS}" ++ (if unsound then " !unsound" else "")
+      let t1 := if run false true ≠ run true true then ["mu-opt"] else []
+      let t2' := if run true false ≠ run true true then ["empty-record-ref"] else []
+      some (im ++ "\t" ++ sp ++ (if im ≠ sp then "\t" ++ ",".intercalate (t1 ++ t2') else ""))
+    | _, _, _, _ => none
   | "wire.annotate", [fp, e, t, v] =>
     match (Sexp.parse e).bind Env.ofSexp, (Sexp.parse t).bind Ty.ofSexp, (Sexp.parse v).bind Val.ofSexp with
     | some env, some ty, some val =>
